@@ -149,6 +149,11 @@ pub enum CommitParams {
     ConfirmedPersist,
     PersistId,
     TimeoutOnly,
+    /// the same parameters given in the other order
+    PersistThenConfirmed,
+    TimeoutThenConfirmed,
+    /// a follow-up confirmed commit (RFC 6241 section 8.4.5.1: <confirmed/> together with <persist-id>)
+    ConfirmedPersistId,
     /// builder calls that ask for nothing: the request is the plain `<commit/>`
     ConfirmedFalse,
     PersistNone,
@@ -232,7 +237,8 @@ pub fn required(r: &Recipe, c: Caps) -> Option<bool> {
             Some(match p {
                 CommitParams::Plain | CommitParams::ConfirmedFalse | CommitParams::PersistNone | CommitParams::PersistIdNone => base,
                 CommitParams::Confirmed | CommitParams::ConfirmedTimeout | CommitParams::TimeoutOnly => base && cc_any,
-                CommitParams::ConfirmedPersist => base && c.has(CC11),
+                CommitParams::ConfirmedPersist | CommitParams::PersistThenConfirmed | CommitParams::ConfirmedPersistId => base && c.has(CC11),
+                CommitParams::TimeoutThenConfirmed => base && cc_any,
                 CommitParams::PersistId => base && c.has(CC11),
             })
         }
@@ -403,7 +409,7 @@ pub fn recipes() -> Vec<Recipe> {
     for s in REQ_SCHEMES {
         v.push(Recipe::DeleteUrl(s));
     }
-    for p in [CommitParams::Plain, CommitParams::Confirmed, CommitParams::ConfirmedTimeout, CommitParams::ConfirmedPersist, CommitParams::PersistId, CommitParams::TimeoutOnly, CommitParams::ConfirmedFalse, CommitParams::PersistNone, CommitParams::PersistIdNone] {
+    for p in [CommitParams::Plain, CommitParams::Confirmed, CommitParams::ConfirmedTimeout, CommitParams::ConfirmedPersist, CommitParams::PersistId, CommitParams::TimeoutOnly, CommitParams::ConfirmedFalse, CommitParams::PersistNone, CommitParams::PersistIdNone, CommitParams::PersistThenConfirmed, CommitParams::TimeoutThenConfirmed, CommitParams::ConfirmedPersistId] {
         v.push(Recipe::Commit(p));
     }
     v.push(Recipe::CancelCommit(false));
@@ -490,6 +496,9 @@ pub fn execute_on(r: &Recipe, hello: &str) -> Result<(bool, Option<String>), Str
             CommitParams::ConfirmedPersist => b.confirmed(true)?.persist(Some(Token::new("tok")))?.finish(),
             CommitParams::PersistId => b.persist_id(Some(Token::new("tok")))?.finish(),
             CommitParams::TimeoutOnly => b.confirm_timeout(Duration::from_secs(120))?.finish(),
+            CommitParams::PersistThenConfirmed => b.persist(Some(Token::new("tok")))?.confirmed(true)?.finish(),
+            CommitParams::TimeoutThenConfirmed => b.confirm_timeout(Duration::from_secs(120))?.confirmed(true)?.finish(),
+            CommitParams::ConfirmedPersistId => b.confirmed(true)?.persist_id(Some(Token::new("tok")))?.finish(),
             CommitParams::ConfirmedFalse => b.confirmed(false)?.finish(),
             CommitParams::PersistNone => b.persist(None)?.finish(),
             CommitParams::PersistIdNone => b.persist_id(None)?.finish(),
